@@ -214,4 +214,45 @@ theorem values_foldl_del (ks : List Bytes) (h : Hdr) (k : Bytes) (hk : k ∉ ks)
     rw [ih _ (fun e => hk (List.mem_cons_of_mem _ e))]
     exact Hdr.values_del_ne _ _ _ (fun e => hk (by simp [e]))
 
+/-- deleting keys never adds a value -/
+theorem values_foldl_del_nil (ks : List Bytes) (h : Hdr) (k : Bytes) (hv : Hdr.values h k = []) :
+    Hdr.values (ks.foldl Hdr.del h) k = [] := by
+  induction ks generalizing h with
+  | nil => exact hv
+  | cons a t ih =>
+    simp only [List.foldl_cons]
+    apply ih
+    by_cases e : k = a
+    · subst e; exact Hdr.values_del_self _ _
+    · rw [Hdr.values_del_ne _ _ _ e]; exact hv
+
+/-- a key in the deleted list has no values afterwards -/
+theorem values_foldl_del_mem (ks : List Bytes) (h : Hdr) (k : Bytes) (hk : k ∈ ks) :
+    Hdr.values (ks.foldl Hdr.del h) k = [] := by
+  induction ks generalizing h with
+  | nil => exact absurd hk List.not_mem_nil
+  | cons a t ih =>
+    simp only [List.foldl_cons]
+    by_cases e : k = a
+    · subst e
+      exact values_foldl_del_nil _ _ _ (Hdr.values_del_self _ _)
+    · rcases List.mem_cons.mp hk with h1 | h1
+      · exact absurd h1 e
+      · exact ih _ h1
+
+/-- `Hdr.dropConnNamed`: the fields a `Connection` option names are gone … -/
+theorem values_dropConnNamed_mem (h : Hdr) (k : Bytes) (hk : k ∈ Hdr.connDrops h) :
+    Hdr.values (Hdr.dropConnNamed h) k = [] :=
+  values_foldl_del_mem _ _ _ hk
+
+/-- … every other field is untouched … -/
+theorem values_dropConnNamed_ne (h : Hdr) (k : Bytes) (hk : k ∉ Hdr.connDrops h) :
+    Hdr.values (Hdr.dropConnNamed h) k = Hdr.values h k :=
+  values_foldl_del _ _ _ hk
+
+/-- … and no field is added -/
+theorem values_dropConnNamed_nil (h : Hdr) (k : Bytes) (hv : Hdr.values h k = []) :
+    Hdr.values (Hdr.dropConnNamed h) k = [] :=
+  values_foldl_del_nil _ _ _ hv
+
 end InvProxy.ConnOpt
